@@ -13,7 +13,7 @@ MCInit ==
   /\ crecs \in RecsC /\ BigLast(crecs)
   /\ brecs \in RecsB /\ BigLast(brecs)
   /\ firstIn = 6 /\ firstOut \in {6, 4} /\ accepted = (firstOut = 4)
-  /\ cutKind \in {"eof", "err"}
+  /\ cutKind \in {"eof", "err"} /\ bigHdr \in BOOLEAN /\ (bigHdr \/ HasBig(crecs))
   /\ cutAt \in firstIn..ClientTotal
   /\ InitState
 
